@@ -2064,12 +2064,15 @@ theorem Val.pyEq_refl (v : Val) : v.pyEq v = true := by
 
 theorem Val.pyEq_symm (a b : Val) : a.pyEq b = b.pyEq a := by
   cases a <;> cases b <;> simp [Val.pyEq, Atom.pyEq_symm, pyEqList_symm, pyEqElems_symm, pyEqDict_symm]
+  rename_i x l y m
+  rw [pyEqElems_symm l m]
+  cases x <;> cases y <;> rfl
 
 theorem Val.pyEq_trans (a b c : Val) (h1 : a.pyEq b = true) (h2 : b.pyEq c = true) : a.pyEq c = true := by
   cases a <;> cases b <;> cases c <;> simp [Val.pyEq] at h1 h2 ⊢
   · exact Atom.pyEq_trans _ _ _ h1 h2
   · exact pyEqList_trans _ _ _ h1 h2
-  · exact pyEqElems_trans _ _ _ h1 h2
+  · exact ⟨h1.1.trans h2.1, pyEqElems_trans _ _ _ h1.2 h2.2⟩
   · exact pyEqDict_trans _ _ _ h1 h2
 
 theorem cellNe_self (a : Option Val) : cellNe a a = false := by
@@ -2997,11 +3000,11 @@ theorem act_deck (w : World) (l : Log) (hr : l.rule = .deck) (ho : l.isOpen = tr
             simp [hfm']
 
 theorem act_streak (w : World) (l : Log) (hr : l.rule = .streak) (ho : l.isOpen = true) (hp : Prepared l)
-    (tag : String) (sid : Nat) (rest : Dict Nat) (q : String) (qs : List String) (items : List Elem)
+    (tag : String) (sid : Nat) (rest : Dict Nat) (q : String) (qs : List String) (dq : Bool) (items : List Elem)
     (hl : l.loggees = (tag, sid) :: rest) (hf : dget l.fields tag = some (q :: qs))
-    (hq : dget (w.shares sid).data q = some (.list items)) :
+    (hq : dget (w.shares sid).data q = some (.list dq items)) :
     l.act w =
-      (w.setShare sid { w.shares sid with data := dset (w.shares sid).data q (.list []) },
+      (w.setShare sid { w.shares sid with data := dset (w.shares sid).data q (.list dq []) },
        { l with stamp := w.stamp,
                 disk := some (fileLines l.disk ++
                   (items.map fun e => (⟨w.stamp, [some e.toVal]⟩ : Rec)).map .record) },
@@ -3294,9 +3297,9 @@ theorem deck_exec (s : S1) (h : List Op) (hi : Inv s) (hr : s.log.rule = .deck)
 /-! ## streak: every appended element is logged once, in order -/
 
 theorem appendTo_queue (w : World) (s2 : Nat) (k : String) (a : Elem) (sid : Nat) (q : String)
-    (items : List Elem) (hq : dget (w.shares sid).data q = some (.list items)) :
+    (dq : Bool) (items : List Elem) (hq : dget (w.shares sid).data q = some (.list dq items)) :
     dget ((w.appendTo s2 k a).shares sid).data q =
-      some (.list (items ++ (if s2 = sid ∧ k = q then [a] else []))) := by
+      some (.list dq (items ++ (if s2 = sid ∧ k = q then [a] else []))) := by
   simp only [World.appendTo]
   by_cases hs : s2 = sid
   · subst hs
@@ -3315,8 +3318,8 @@ theorem appendTo_queue (w : World) (s2 : Nat) (k : String) (a : Elem) (sid : Nat
     · exact hq
 
 theorem setitemTo_queue (w : World) (s2 : Nat) (k kk : String) (a : Atom) (sid : Nat) (q : String)
-    (items : List Elem) (hq : dget (w.shares sid).data q = some (.list items)) :
-    dget ((w.setitemTo s2 k kk a).shares sid).data q = some (.list items) := by
+    (dq : Bool) (items : List Elem) (hq : dget (w.shares sid).data q = some (.list dq items)) :
+    dget ((w.setitemTo s2 k kk a).shares sid).data q = some (.list dq items) := by
   simp only [World.setitemTo]
   by_cases hs : s2 = sid
   · subst hs
@@ -3333,10 +3336,10 @@ theorem setitemTo_queue (w : World) (s2 : Nat) (k kk : String) (a : Atom) (sid :
     · exact hq
 
 /-- field `q` of share `sid` after a writer operation that does not overwrite it -/
-theorem apply_queue (w : World) (o : WOp) (sid : Nat) (q : String) (items : List Elem)
-    (hq : dget (w.shares sid).data q = some (.list items))
+theorem apply_queue (w : World) (o : WOp) (sid : Nat) (q : String) (dq : Bool) (items : List Elem)
+    (hq : dget (w.shares sid).data q = some (.list dq items))
     (hno : noOverwrite sid q [.w o] = true) :
-    dget ((w.apply o).shares sid).data q = some (.list (items ++ queuedBy w sid q (.w o))) := by
+    dget ((w.apply o).shares sid).data q = some (.list dq (items ++ queuedBy w sid q (.w o))) := by
   cases o with
   | setStamp t => simpa [World.apply, queuedBy] using hq
   | advance d => simpa [World.apply, queuedBy] using hq
@@ -3375,13 +3378,13 @@ theorem apply_queue (w : World) (o : WOp) (sid : Nat) (q : String) (items : List
         · exact fun e => h e.symm
       simp only [dget_dset_other _ _ _ _ hk]; exact hq
     · rw [setShare_other _ _ _ _ hs]; exact hq
-  | append s2 k a => exact appendTo_queue w s2 k a sid q items hq
+  | append s2 k a => exact appendTo_queue w s2 k a sid q dq items hq
   | setitem s2 k kk a =>
     simp only [queuedBy, List.append_nil]
-    exact setitemTo_queue w s2 k kk a sid q items hq
+    exact setitemTo_queue w s2 k kk a sid q dq items hq
   | happend i e =>
     rcases apply_happend_cases w i e with ⟨h, hh, hlive, he⟩ | ⟨hs, _, hdead⟩
-    · rw [he, appendTo_queue w h.sid h.f e sid q items hq]
+    · rw [he, appendTo_queue w h.sid h.f e sid q dq items hq]
       simp only [queuedBy, hh, hlive, true_and]
     · rw [hs]
       simp only [queuedBy]
@@ -3391,7 +3394,7 @@ theorem apply_queue (w : World) (o : WOp) (sid : Nat) (q : String) (items : List
   | hsetitem i k a =>
     simp only [queuedBy, List.append_nil]
     rcases apply_hsetitem_cases w i k a with ⟨h, _, _, he⟩ | ⟨hs, _, _⟩
-    · rw [he]; exact setitemTo_queue w _ _ k a sid q items hq
+    · rw [he]; exact setitemTo_queue w _ _ k a sid q dq items hq
     · rw [hs]; exact hq
 
 def streakPhi (s : S1) (sid : Nat) (q : String) : List (List (Option Val)) :=
@@ -3407,14 +3410,14 @@ theorem prepFields_streak (w : World) (l : Log) (hr : l.rule = .streak) (tag : S
 
 theorem streak_step (s : S1) (op : Op) (hi : Inv s) (hr : s.log.rule = .streak)
     (hok : ∀ c, op = .ctl c → ctlOk s.status c = true)
-    (tag : String) (sid : Nat) (rest : Dict Nat) (q : String) (qs : List String) (items : List Elem)
+    (tag : String) (sid : Nat) (rest : Dict Nat) (q : String) (qs : List String) (dq : Bool) (items : List Elem)
     (hl : s.log.loggees = (tag, sid) :: rest) (hf : dget s.log.fields tag = some (q :: qs))
-    (hq : dget (s.world.shares sid).data q = some (.list items))
+    (hq : dget (s.world.shares sid).data q = some (.list dq items))
     (hno : noOverwrite sid q [op] = true) :
     streakPhi (s.step op).1 sid q =
       streakPhi s sid q ++ (queuedBy s.world sid q op).map (fun e => [some e.toVal]) ∧
     (∃ qs', dget (s.step op).1.log.fields tag = some (q :: qs')) ∧
-    (∃ items', dget ((s.step op).1.world.shares sid).data q = some (.list items')) ∧
+    (∃ items', dget ((s.step op).1.world.shares sid).data q = some (.list dq items')) ∧
     (∀ c, op = .ctl c → isRun s.status c = true → pending (s.step op).1.world sid q = []) := by
   have hfield : ∃ qs', dget (s.step op).1.log.fields tag = some (q :: qs') := by
     rw [step_fields s op hi hok]
@@ -3424,7 +3427,7 @@ theorem streak_step (s : S1) (op : Op) (hi : Inv s) (hr : s.log.rule = .streak)
     | ctl c => cases c <;> first | exact ⟨qs, hf⟩ | exact ⟨[], hkeep⟩
   cases op with
   | w o =>
-    have hq' := apply_queue s.world o sid q items hq hno
+    have hq' := apply_queue s.world o sid q dq items hq hno
     refine ⟨?_, hfield, ⟨_, hq'⟩, fun c hc => by cases hc⟩
     simp only [streakPhi, S1.step, S1.recs, pending, hq, hq', List.map_append, List.append_assoc]
   | ctl c =>
@@ -3441,12 +3444,12 @@ theorem streak_step (s : S1) (op : Op) (hi : Inv s) (hr : s.log.rule = .streak)
         · exact ⟨qs, hf⟩
         · simp [isRun] at hrun
       obtain ⟨qs', hfa⟩ := hfa
-      have hact := act_streak s.world (actLog s c) (f4.trans hr) f2 f3 tag sid rest q qs' items
+      have hact := act_streak s.world (actLog s c) (f4.trans hr) f2 f3 tag sid rest q qs' dq items
         (f7.trans hl) hfa hq
       have hw' : (s.step (.ctl c)).1.world =
-          s.world.setShare sid { s.world.shares sid with data := dset (s.world.shares sid).data q (.list []) } := by
+          s.world.setShare sid { s.world.shares sid with data := dset (s.world.shares sid).data q (.list dq []) } := by
         simp only [S1.step, h2, hrun, if_true, hact]
-      have hq'' : dget ((s.step (.ctl c)).1.world.shares sid).data q = some (.list []) := by
+      have hq'' : dget ((s.step (.ctl c)).1.world.shares sid).data q = some (.list dq []) := by
         rw [hw', setShare_same]; exact dget_dset_same _ _ _
       refine ⟨?_, hfield, ⟨[], hq''⟩, fun _ _ _ => by simp [pending, hq'']⟩
       simp only [streakPhi, pending, hq'', hq, queuedBy, List.map_nil, List.append_nil]
@@ -3496,12 +3499,12 @@ theorem streak_dict_run (s : S1) (c : Ctl) (hi : Inv s) (hr : s.log.rule = .stre
 
 theorem streak_exec (s : S1) (h : List Op) (hi : Inv s) (hr : s.log.rule = .streak)
     (hp : proto s.status h = true)
-    (tag : String) (sid : Nat) (rest : Dict Nat) (q : String) (qs : List String) (items : List Elem)
+    (tag : String) (sid : Nat) (rest : Dict Nat) (q : String) (qs : List String) (dq : Bool) (items : List Elem)
     (hl : s.log.loggees = (tag, sid) :: rest) (hf : dget s.log.fields tag = some (q :: qs))
-    (hq : dget (s.world.shares sid).data q = some (.list items))
+    (hq : dget (s.world.shares sid).data q = some (.list dq items))
     (hno : noOverwrite sid q h = true) :
     streakPhi (s.exec h) sid q = streakPhi s sid q ++ (queued s sid q h).map (fun e => [some e.toVal]) := by
-  induction h generalizing s qs items with
+  induction h generalizing s qs dq items with
   | nil => simp [S1.exec, queued]
   | cons op restops ih =>
     obtain ⟨hok, hi', hp'⟩ := thread s op restops hi hp
@@ -3512,12 +3515,281 @@ theorem streak_exec (s : S1) (h : List Op) (hi : Inv s) (hr : s.log.rule = .stre
         cases o <;> simp only [noOverwrite, Bool.and_eq_true, Bool.and_true] at hno ⊢ <;>
           first | exact hno | exact ⟨rfl, hno⟩ | exact ⟨trivial, hno⟩
     obtain ⟨d1, ⟨qs', d2⟩, ⟨items', d3⟩, _⟩ :=
-      streak_step s op hi hr hok tag sid rest q qs items hl hf hq hno1.1
+      streak_step s op hi hr hok tag sid rest q qs dq items hl hf hq hno1.1
     have hsr := step_rule s op hi hok
     simp only [S1.exec]
-    rw [ih _ hi' (hsr.1.trans hr) hp' qs' items' (hsr.2.trans hl) d2 d3 hno1.2, d1, List.append_assoc,
+    rw [ih _ hi' (hsr.1.trans hr) hp' qs' dq items' (hsr.2.trans hl) d2 d3 hno1.2, d1, List.append_assoc,
       ← List.map_append]
     rfl
+
+/-! ## held references stay live while the producer does not rebind the field -/
+
+theorem appendTo_held (w : World) (s : Nat) (f : String) (e : Elem) : (w.appendTo s f e).held = w.held := by
+  unfold World.appendTo; simp only []; split <;> rfl
+
+theorem setitemTo_held (w : World) (s : Nat) (f k : String) (a : Atom) :
+    (w.setitemTo s f k a).held = w.held := by
+  unfold World.setitemTo; simp only []; split <;> rfl
+
+theorem viaHeld_refsLive (w : World) (i : Nat) (live : Held → World) (dead : Val → Val) (sid : Nat) (q : String)
+    (hlive : ∀ h, (live h).held = w.held) (hl : refsLive w sid q) :
+    refsLive (w.viaHeld i live dead) sid q := by
+  unfold World.viaHeld
+  split
+  · exact hl
+  · rename_i h hh
+    split
+    · exact hl
+    · split
+      · intro h' hm; rw [hlive h] at hm; exact hl h' hm
+      · rename_i v ho
+        intro h' hm hs hf
+        simp only [List.mem_map] at hm
+        obtain ⟨h0, hm0, he⟩ := hm
+        by_cases hc : (h0.orphan.isSome = true ∧ h0.grp = h.grp)
+        · rw [if_pos hc] at he
+          have h0s : h0.sid = sid := by rw [← he] at hs; exact hs
+          have h0f : h0.f = q := by rw [← he] at hf; exact hf
+          have := hl h0 hm0 h0s h0f
+          rw [this] at hc; simp at hc
+        · rw [if_neg hc] at he
+          subst he; exact hl h0 hm0 hs hf
+
+theorem rebind_refsLive (w : World) (s : Nat) (f : String) (sid : Nat) (q : String)
+    (hne : ¬ (s = sid ∧ f = q)) (hl : refsLive w sid q) : refsLive (w.rebind s f) sid q := by
+  intro h' hm hs hf
+  simp only [World.rebind, List.mem_map] at hm
+  obtain ⟨h0, hm0, he⟩ := hm
+  by_cases hc : (h0.sid = s ∧ h0.f = f ∧ h0.live = true)
+  · rw [if_pos hc] at he
+    exfalso; apply hne
+    rw [← he] at hs hf
+    exact ⟨hc.1.symm.trans hs, hc.2.1.symm.trans hf⟩
+  · rw [if_neg hc] at he
+    subst he; exact hl h0 hm0 hs hf
+
+/-- a writer operation that does not rebind field `q` of share `sid` keeps every reference to it live -/
+theorem apply_refsLive (w : World) (o : WOp) (sid : Nat) (q : String)
+    (hno : noOverwrite sid q [.w o] = true) (hl : refsLive w sid q) : refsLive (w.apply o) sid q := by
+  cases o with
+  | setStamp t => exact hl
+  | advance d => exact hl
+  | write s f v =>
+    simp only [noOverwrite, Bool.and_true, Bool.not_eq_true', Bool.and_eq_false_iff, beq_eq_false_iff_ne] at hno
+    exact rebind_refsLive w s f sid q (fun h => by rcases hno with h1 | h1 <;> simp [h.1, h.2] at h1) hl
+  | poke s f v =>
+    simp only [noOverwrite, Bool.and_true, Bool.not_eq_true', Bool.and_eq_false_iff, beq_eq_false_iff_ne] at hno
+    exact rebind_refsLive w s f sid q (fun h => by rcases hno with h1 | h1 <;> simp [h.1, h.2] at h1) hl
+  | append s f e => intro h' hm; rw [show (w.apply (.append s f e)).held = w.held from appendTo_held w s f e] at hm; exact hl h' hm
+  | setitem s f k a =>
+    intro h' hm; rw [show (w.apply (.setitem s f k a)).held = w.held from setitemTo_held w s f k a] at hm; exact hl h' hm
+  | push s e => exact hl
+  | hpush s e => exact hl
+  | hold s f =>
+    intro h' hm hs hf
+    simp only [World.apply] at hm
+    have : h' ∈ w.held ∨ h'.orphan = none := by
+      split at hm <;> simp only [List.mem_append, List.mem_singleton] at hm <;>
+        rcases hm with hm | hm <;> first | exact Or.inl hm | (subst hm; exact Or.inr rfl)
+    rcases this with hm' | ho
+    · exact hl h' hm' hs hf
+    · exact ho
+  | happend i e =>
+    exact viaHeld_refsLive w i _ _ sid q (fun h => appendTo_held w _ _ e) hl
+  | hsetitem i k a =>
+    exact viaHeld_refsLive w i _ _ sid q (fun h => setitemTo_held w _ _ k a) hl
+
+theorem noOverwrite_cons (sid : Nat) (q : String) (op : Op) (rest : List Op)
+    (hno : noOverwrite sid q (op :: rest) = true) :
+    noOverwrite sid q [op] = true ∧ noOverwrite sid q rest = true := by
+  cases op with
+  | ctl c => exact ⟨rfl, hno⟩
+  | w o =>
+    cases o <;> simp only [noOverwrite, Bool.and_eq_true, Bool.and_true] at hno ⊢ <;>
+      first | exact hno | exact ⟨rfl, hno⟩ | exact ⟨trivial, hno⟩
+
+/-- over a whole history: the logger never rebinds, so as long as the producer does not either,
+the objects it holds remain the field's value -/
+theorem refsLive_exec (s : S1) (h : List Op) (hi : Inv s) (hp : proto s.status h = true)
+    (sid : Nat) (q : String) (hno : noOverwrite sid q h = true) (hl : refsLive s.world sid q) :
+    refsLive (s.exec h).world sid q := by
+  induction h generalizing s with
+  | nil => exact hl
+  | cons op rest ih =>
+    obtain ⟨hok, hi', hp'⟩ := thread s op rest hi hp
+    obtain ⟨hn1, hn2⟩ := noOverwrite_cons sid q op rest hno
+    simp only [S1.exec]
+    apply ih _ hi' hp' hn2
+    cases op with
+    | w o => exact apply_refsLive s.world o sid q hn1 hl
+    | ctl c =>
+      intro h' hm
+      rw [ctl_held s c hi (hok c rfl)] at hm
+      exact hl h' hm
+
+/-! ## a mapping-valued queue over a whole history -/
+
+theorem appendTo_dictq (w : World) (s2 : Nat) (k : String) (a : Elem) (sid : Nat) (q : String)
+    (o : Bool) (d : Dict Atom) (hq : dget (w.shares sid).data q = some (.dict o d)) :
+    dget ((w.appendTo s2 k a).shares sid).data q = some (.dict o d) := by
+  simp only [World.appendTo]
+  by_cases hs : s2 = sid
+  · subst hs
+    by_cases hk : k = q
+    · subst hk
+      simp only [hq]
+    · have hk' : q ≠ k := fun e => hk e.symm
+      split
+      · rw [setShare_same]; simp only [dget_dset_other _ _ _ _ hk']; exact hq
+      · exact hq
+  · have hs' : sid ≠ s2 := fun e => hs e.symm
+    split
+    · rw [setShare_other _ _ _ _ hs']; exact hq
+    · exact hq
+
+theorem setitemTo_dictq (w : World) (s2 : Nat) (k kk : String) (a : Atom) (sid : Nat) (q : String)
+    (o : Bool) (d : Dict Atom) (hq : dget (w.shares sid).data q = some (.dict o d)) :
+    dget ((w.setitemTo s2 k kk a).shares sid).data q =
+      some (.dict o (if s2 = sid ∧ k = q then dset d kk a else d)) := by
+  simp only [World.setitemTo]
+  by_cases hs : s2 = sid
+  · subst hs
+    by_cases hk : k = q
+    · subst hk
+      simp only [hq, and_self, if_true, setShare_same, dget_dset_same]
+    · have hk' : q ≠ k := fun e => hk e.symm
+      simp only [hk, and_false, if_false]
+      split
+      · rw [setShare_same]; simp only [dget_dset_other _ _ _ _ hk']; exact hq
+      · exact hq
+  · have hs' : sid ≠ s2 := fun e => hs e.symm
+    simp only [hs, false_and, if_false]
+    split
+    · rw [setShare_other _ _ _ _ hs']; exact hq
+    · exact hq
+
+/-- the mapping in field `q` of share `sid` after a writer operation that does not rebind it -/
+theorem apply_dictq (w : World) (op : WOp) (sid : Nat) (q : String) (o : Bool) (d : Dict Atom)
+    (hq : dget (w.shares sid).data q = some (.dict o d))
+    (hno : noOverwrite sid q [.w op] = true) :
+    dget ((w.apply op).shares sid).data q =
+      some (.dict o (match assignedBy w sid q (.w op) with | some (k, a) => dset d k a | none => d)) := by
+  cases op with
+  | setStamp t => simpa [World.apply, assignedBy] using hq
+  | advance t => simpa [World.apply, assignedBy] using hq
+  | push s2 e =>
+    simp only [World.apply, assignedBy]
+    by_cases hs : sid = s2
+    · subst hs; rw [setShare_same]; exact hq
+    · rw [setShare_other _ _ _ _ hs]; exact hq
+  | hpush s2 e =>
+    simp only [World.apply, assignedBy]
+    by_cases hs : sid = s2
+    · subst hs; rw [setShare_same]; exact hq
+    · rw [setShare_other _ _ _ _ hs]; exact hq
+  | hold s2 f2 => rw [(apply_hold_shares w s2 f2).1]; simpa [assignedBy] using hq
+  | write s2 k v =>
+    simp only [noOverwrite, Bool.and_true, Bool.not_eq_true', Bool.and_eq_false_iff, beq_eq_false_iff_ne] at hno
+    simp only [World.apply, assignedBy]
+    by_cases hs : sid = s2
+    · subst hs
+      rw [setShare_same]
+      have hk : q ≠ k := by
+        rcases hno with h | h
+        · exact absurd rfl h
+        · exact fun e => h e.symm
+      simp only [dget_dset_other _ _ _ _ hk]; exact hq
+    · rw [setShare_other _ _ _ _ hs]; exact hq
+  | poke s2 k v =>
+    simp only [noOverwrite, Bool.and_true, Bool.not_eq_true', Bool.and_eq_false_iff, beq_eq_false_iff_ne] at hno
+    simp only [World.apply, assignedBy]
+    by_cases hs : sid = s2
+    · subst hs
+      rw [setShare_same]
+      have hk : q ≠ k := by
+        rcases hno with h | h
+        · exact absurd rfl h
+        · exact fun e => h e.symm
+      simp only [dget_dset_other _ _ _ _ hk]; exact hq
+    · rw [setShare_other _ _ _ _ hs]; exact hq
+  | append s2 k a =>
+    simp only [assignedBy]
+    exact appendTo_dictq w s2 k a sid q o d hq
+  | setitem s2 k kk a =>
+    rw [show w.apply (.setitem s2 k kk a) = w.setitemTo s2 k kk a from rfl,
+      setitemTo_dictq w s2 k kk a sid q o d hq]
+    simp only [assignedBy]
+    split <;> rfl
+  | happend i e =>
+    simp only [assignedBy]
+    rcases apply_happend_cases w i e with ⟨h, _, _, he⟩ | ⟨hs, _, _⟩
+    · rw [he]; exact appendTo_dictq w _ _ e sid q o d hq
+    · rw [hs]; exact hq
+  | hsetitem i k a =>
+    rcases apply_hsetitem_cases w i k a with ⟨h, hh, hlive, he⟩ | ⟨hs, _, hdead⟩
+    · rw [he, setitemTo_dictq w h.sid h.f k a sid q o d hq]
+      simp only [assignedBy, hh, hlive, true_and]
+      split <;> rfl
+    · rw [hs]
+      simp only [assignedBy]
+      cases hh : w.held[i]? with
+      | none => exact hq
+      | some h => simp [hdead h hh]; exact hq
+
+/-- the streak log keeps naming the queue field -/
+theorem streak_field_step (s : S1) (op : Op) (hi : Inv s) (hr : s.log.rule = .streak)
+    (hok : ∀ c, op = .ctl c → ctlOk s.status c = true)
+    (tag : String) (sid : Nat) (rest : Dict Nat) (q : String) (qs : List String)
+    (hl : s.log.loggees = (tag, sid) :: rest) (hf : dget s.log.fields tag = some (q :: qs)) :
+    ∃ qs', dget (s.step op).1.log.fields tag = some (q :: qs') := by
+  rw [step_fields s op hi hok]
+  have hkeep := prepFields_streak s.world s.log hr tag sid rest q qs hl hf
+  cases op with
+  | w o => exact ⟨qs, hf⟩
+  | ctl c => cases c <;> first | exact ⟨qs, hf⟩ | exact ⟨[], hkeep⟩
+
+/-- **a mapping-valued queue over a whole history**: the records written are those of the
+reference queue `mapQueue`, and what waits in the field is what waits there -/
+theorem mapping_exec (s : S1) (h : List Op) (hi : Inv s) (hr : s.log.rule = .streak)
+    (hp : proto s.status h = true)
+    (tag : String) (sid : Nat) (rest : Dict Nat) (q : String) (qs : List String) (o : Bool) (d : Dict Atom)
+    (hl : s.log.loggees = (tag, sid) :: rest) (hf : dget s.log.fields tag = some (q :: qs))
+    (hq : dget (s.world.shares sid).data q = some (.dict o d))
+    (hno : noOverwrite sid q h = true) :
+    (s.exec h).recs.map (·.cells) =
+      s.recs.map (·.cells) ++ (mapQueue s sid q d h).1.map (fun e => [some e.toVal]) ∧
+    dget ((s.exec h).world.shares sid).data q = some (.dict o (mapQueue s sid q d h).2) := by
+  induction h generalizing s qs d with
+  | nil => simp [S1.exec, mapQueue, hq]
+  | cons op restops ih =>
+    obtain ⟨hok, hi', hp'⟩ := thread s op restops hi hp
+    obtain ⟨hn1, hn2⟩ := noOverwrite_cons sid q op restops hno
+    obtain ⟨qs', hf'⟩ := streak_field_step s op hi hr hok tag sid rest q qs hl hf
+    have hsr := step_rule s op hi hok
+    simp only [S1.exec]
+    cases op with
+    | w wo =>
+      have hq' := apply_dictq s.world wo sid q o d hq hn1
+      have := ih (s.step (.w wo)).1 hi' (hsr.1.trans hr) hp' qs' _ (hsr.2.trans hl) hf' hq' hn2
+      simp only [mapQueue]
+      exact this
+    | ctl c =>
+      have hc := hok c rfl
+      obtain ⟨h1, h2, _⟩ := send_recs s c hi hc
+      by_cases hrun : isRun s.status c = true
+      · obtain ⟨r1, r2⟩ := streak_dict_run s c hi hr hc hrun tag sid rest q qs o d hl hf hq
+        have := ih (s.step (.ctl c)).1 hi' (hsr.1.trans hr) hp' qs' [] (hsr.2.trans hl) hf' r2 hn2
+        simp only [mapQueue, hrun, if_true]
+        refine ⟨?_, this.2⟩
+        rw [this.1, r1, List.append_assoc, ← List.map_append]
+      · have hnr : isRun s.status c = false := by simpa using hrun
+        have hw' : (s.step (.ctl c)).1.world = s.world := by simp only [S1.step, h2, hnr]; rfl
+        have hr' : (s.step (.ctl c)).1.recs = s.recs := by simp only [S1.step, h1, hnr]; rfl
+        have := ih (s.step (.ctl c)).1 hi' (hsr.1.trans hr) hp' qs' d (hsr.2.trans hl) hf'
+          (by rw [hw']; exact hq) hn2
+        simp only [mapQueue, hnr]
+        rw [hr'] at this
+        exact this
 
 /-! ## one header per new file -/
 
